@@ -73,7 +73,7 @@ impl<'a, N: Analysis<Fp>> Sem<'a, N> {
             Fp::Neg(a) => (P - self.val_app(a, env)?) % P,
             Fp::Sum(Bind { slot, elem }) => {
                 let mut s = 0;
-                for v in 0..P {
+                for v in 0..SUM_RANGE {
                     let mut e = env.clone();
                     e.insert(*slot, v);
                     s = (s + self.val_app(elem, &e)?) % P;
@@ -242,7 +242,11 @@ fn gen_start(ch: &[u16]) -> (Tm, Option<usize>) {
     if src.pick(4) == 0 {
         return (cap_fv(&gen_tm(&sig, &cfg, &mut src, 0), 3), None);
     }
-    let ri = src.pick(pool.len());
+    // half of the planted instances ignore the rule's side condition (the rule must then *not* fire on them);
+    // those are planted for conditional rules only
+    let respect_condition = src.pick(2) == 0;
+    let conditional: Vec<usize> = (0..pool.len()).filter(|i| !pool[*i].not_free.is_empty()).collect();
+    let ri = if respect_condition { src.pick(pool.len()) } else { conditional[src.pick(conditional.len())] };
     let r = &pool[ri];
     let lhs = parse_pat_text(&sig, r.lhs).unwrap();
     let scopes = pvars_scopes(&lhs);
@@ -250,7 +254,7 @@ fn gen_start(ch: &[u16]) -> (Tm, Option<usize>) {
     for (v, scope) in &scopes {
         let mut allowed: Vec<Name> = vec![0, 1, 2];
         for s in scope {
-            if !r.not_free.iter().any(|(sl, var)| var == v && name_of_alpha(&format!("${}", sl)) == Some(*s)) {
+            if !respect_condition || !r.not_free.iter().any(|(sl, var)| var == v && name_of_alpha(&format!("${}", sl)) == Some(*s)) {
                 allowed.push(*s);
             }
         }
@@ -273,7 +277,7 @@ fn gen_start(ch: &[u16]) -> (Tm, Option<usize>) {
 fn strategy(max_iters: u8) -> BoxedStrategy<RwCase> {
     (
         proptest::collection::vec(any::<u16>(), 0..80),
-        proptest::collection::vec(0usize..29, 1..8),
+        proptest::collection::vec(0usize..32, 1..8),
         1u8..=max_iters,
         any::<bool>(),
         any::<bool>(),
@@ -308,7 +312,7 @@ pub fn property(tier: Tier) -> Property {
                                 if c.use_runner { "Runner" } else { "apply_rewrites" }
             )
         },
-        rule: "start term over the F_5 language (half of them a context around an instance of a rule's left side), a subset of 1-7 of the 29 model-valid rules (assoc/comm/distrib, units, sum linearity both ways, scaling into and out of the binder, sum shift, let rules, b[x:=t] right sides), 1-4/5 iterations under apply_rewrites or Runner (node limit 1500), both substitution methods; every e-node of every class evaluated in 8 random environments against the class's Bellman-Ford-cheapest e-node, redundant slots given fresh random values, root against direct evaluation of the start term; non-trivial = rewriting changed the e-graph, a binder rule was in the set, the start term has a binder and some class has >= 3 e-nodes; distinct by rendered case",
+        rule: "start term over the F_5 language (summation over the index set {0,1}) (half of them a context around an instance of a rule's left side), a subset of 1-7 of the 32 model-valid rules (conditions assembled from the library's slot_free_in / and / or / not) (assoc/comm/distrib, units, sum linearity both ways, scaling into and out of the binder, sum shift, let rules, b[x:=t] right sides), 1-4/5 iterations under apply_rewrites or Runner (node limit 1500), both substitution methods; every e-node of every class evaluated in 8 random environments against the class's Bellman-Ford-cheapest e-node, redundant slots given fresh random values, root against direct evaluation of the start term; non-trivial = rewriting changed the e-graph, a binder rule was in the set, the start term has a binder and some class has >= 3 e-nodes; distinct by rendered case",
         case_timeout_s: tier.pick(120, 600),
         exhaustive: false,
     })];
